@@ -136,7 +136,9 @@ def stat_cases(rng, tier):
     labels = ["a", "b", "c"]
     k = 0
     for n, mx in ((2, 4), (3, 3), (4, 3)):
-        for spec in common.grid_continua(rng, n, mx, 40, labels, allow_empty=False, count=5 if tier == "quick" else 30):
+        # (references where an annotator has no unit are part of the domain: the measured statistics count that annotator)
+        for spec in common.grid_continua(rng, n, mx, 40, labels, allow_empty=False, count=5 if tier == "quick" else 30) + \
+                common.grid_continua(rng, n, mx, 40, labels, allow_empty=True, count=3 if tier == "quick" else 15):
             yield {"continuum": spec, "ground_truth": None if k % 2 else sorted(spec)[:2], "custom": k % 3 == 0, "weights": k % 2 == 0,
                    "seed": rng.randint(0, 10 ** 6), "draws": 40 if tier == "quick" else 300}
             k += 1
